@@ -3,6 +3,7 @@ package pchain
 import (
 	"bytes"
 	"fmt"
+	"os"
 	"sort"
 	"testing"
 
@@ -42,7 +43,7 @@ func genC14(t *rapid.T) C14Case {
 	n := rapid.IntRange(1, 14).Draw(t, "nops")
 	for i := 0; i < n; i++ {
 		op := C14Op{}
-		switch k := kit.Uniform(t, 28, "opkind"); {
+		switch k := kit.Uniform(t, 29, "opkind"); {
 		case k < 5:
 			op.Op = "submit1"
 		case k < 11:
@@ -56,6 +57,12 @@ func genC14(t *rapid.T) C14Case {
 			op.IDSel = rapid.IntRange(0, 255).Draw(t, "subset")
 		case k < 22:
 			op.Op = "parents"
+			op.IDSel = rapid.IntRange(0, 7).Draw(t, "which")
+		case k == 27:
+			// a block confirming a prefix of the v2 pool and, as the very next
+			// pool access, the broadcast set of a surviving child of a survivor
+			op.Op = "minethenset"
+			op.Mut = rapid.IntRange(1, 3).Draw(t, "prefix")
 			op.IDSel = rapid.IntRange(0, 7).Draw(t, "which")
 		case k == 26:
 			// a set built on a block that is then reorganised away
@@ -629,6 +636,146 @@ func runC14(c C14Case, cs *kit.CaseStats) error {
 				}
 			}
 
+		case "minethenset":
+			if L.Height()+2 < tr.Network.HardforkV2.AllowHeight {
+				continue
+			}
+			{
+				// make sure a parent/child pair is pooled: a payment and a spend
+				// of its (unconfirmed) output, submitted as one set
+				pb := kit.NewBlockBuilder(L)
+				pb.Absorb(before.v1, before.v2)
+				pb.DropEphemeral()
+				w := op.IDSel % kit.NumActors
+				if pb.Add(kit.Intent{Kind: "pay", V2: true, Who: w, To: (w + 1) % kit.NumActors, Pick: oi, Amt: 5, Fee: true}) &&
+					pb.Add(kit.Intent{Kind: "pay", V2: true, Who: (w + 1) % kit.NumActors, To: (w + 2) % kit.NumActors, Eph: true, Pick: 0, Amt: 2, Fee: true}) {
+					if _, err := node.CM.AddV2PoolTransactions(L.Index(), pb.V2Txns); err == nil {
+						before = viewPool(node)
+					}
+				}
+			}
+			if len(before.v2) < 2 {
+				continue
+			}
+			k2 := min(op.Mut, len(before.v2)-1)
+			sur2 := before.v2[k2:]
+			// among the survivors: who creates what
+			creator := map[types.Hash256]int{}
+			for i, t := range sur2 {
+				tid := t.ID()
+				for k := range t.SiacoinOutputs {
+					creator[types.Hash256(t.SiacoinOutputID(tid, k))] = i
+				}
+				for k := range t.SiafundOutputs {
+					creator[types.Hash256(t.SiafundOutputID(tid, k))] = i
+				}
+				for k := range t.FileContracts {
+					creator[types.Hash256(t.V2FileContractID(tid, k))] = i
+				}
+			}
+			parentsOf := func(t types.V2Transaction) (ps []int) {
+				_, eph := v2InputIDs(t)
+				for _, id := range eph {
+					if i, ok := creator[id]; ok {
+						ps = append(ps, i)
+					}
+				}
+				return
+			}
+			var cands []int
+			for i, t := range sur2 {
+				if len(parentsOf(t)) > 0 {
+					cands = append(cands, i)
+				}
+			}
+			if len(cands) == 0 {
+				continue
+			}
+			ci := cands[op.IDSel%len(cands)]
+			anc := map[int]bool{}
+			var walk func(i int)
+			walk = func(i int) {
+				for _, pi := range parentsOf(sur2[i]) {
+					if !anc[pi] {
+						anc[pi] = true
+						walk(pi)
+					}
+				}
+			}
+			walk(ci)
+			salt++
+			b := kit.AssembleBlock(L.State, L.Block.Timestamp.Add(1e9), kit.Actors[0].Addr, nil, before.v2[:k2], salt)
+			nl, err := L.Apply(b, nil)
+			if err != nil {
+				continue
+			}
+			oldIndex := L.Index()
+			if err := node.CM.AddBlocks([]types.Block{b}); err != nil {
+				return fmt.Errorf("%s: block accepted by the reference was rejected: %v", where, err)
+			}
+			L = nl
+			for _, t := range before.v2[:k2] {
+				confirmed = append(confirmed, t.ID())
+			}
+			target := sur2[ci].DeepCopy()
+			gotBasis, got, serr := node.CM.V2TransactionSet(oldIndex, target)
+			where = fmt.Sprintf("%s: mined %d of %d pooled v2 transactions, then at once V2TransactionSet(%v, %v) (a surviving transaction with %d surviving pooled ancestor(s)) -> basis %v, %d transactions, err=%v", where, k2, len(before.v2), oldIndex, target.ID(), len(anc), gotBasis, len(got), serr)
+			// the expectation only holds if the transaction and its ancestors
+			// survived the block (they may have become invalid with the height)
+			afterSet := viewPool(node)
+			stillPooled := true
+			if _, ok := afterSet.ids2[target.ID()]; !ok {
+				stillPooled = false
+			}
+			for ai := range anc {
+				if _, ok := afterSet.ids2[sur2[ai].ID()]; !ok {
+					stillPooled = false
+				}
+			}
+			if !stillPooled {
+				cs.Class("minethenset:family-dropped-by-the-block")
+				continue
+			}
+			cs.Class("broadcast-set-right-after-a-partly-confirming-block")
+			cs.NonTrivial()
+			if serr != nil {
+				return fmt.Errorf("%s: failed", where)
+			}
+			if gotBasis != L.Index() || len(got) == 0 || got[len(got)-1].ID() != target.ID() {
+				return fmt.Errorf("%s: expected basis = tip %v and the transaction itself last", where, L.Index())
+			}
+			seenAnc := map[int]bool{}
+			pos := map[types.TransactionID]int{}
+			for i, t := range sur2 {
+				pos[t.ID()] = i
+			}
+			for gi, g := range got[:len(got)-1] {
+				i, ok := pos[g.ID()]
+				if !ok || !anc[i] {
+					return fmt.Errorf("%s: element %d (%v) is not a pooled ancestor of the transaction", where, gi, g.ID())
+				}
+				for _, pi := range parentsOf(sur2[i]) {
+					if !seenAnc[pi] {
+						return fmt.Errorf("%s: element %d (%v) comes before its own pooled parent", where, gi, g.ID())
+					}
+				}
+				seenAnc[i] = true
+			}
+			if len(seenAnc) != len(anc) && os.Getenv("VERIF_DEBUG") != "" {
+				for i, t := range sur2 {
+					_, eph := v2InputIDs(t)
+					fmt.Printf("DBG sur2[%d] %v eph=%d parents=%v anc=%v\n", i, t.ID(), len(eph), parentsOf(t), anc[i])
+				}
+				for _, t := range node.CM.V2PoolTransactions() {
+					_, eph := v2InputIDs(t)
+					fmt.Printf("DBG pool now %v eph=%d\n", t.ID(), len(eph))
+				}
+				fmt.Printf("DBG target %v mined %v\n", target.ID(), before.v2[0].ID())
+			}
+			if len(seenAnc) != len(anc) {
+				return fmt.Errorf("%s: %d of the %d pooled ancestors are missing from the set", where, len(anc)-len(seenAnc), len(anc))
+			}
+
 		case "staleforkset":
 			// block b1 on the tip confirms a payment; a set is built with basis b1:
 			// an independent payment A and a transaction X spending the output b1
@@ -952,7 +1099,7 @@ func listedAreRetrievable(n *kit.Node) error {
 
 var c14Prop = kit.Prop[C14Case]{
 	ID:   "C14",
-	Rule: "stateful sequences (1..14 ops) over one manager on a short base chain in three regimes (v1+v2 overlap, v2 only, v1 only): submit v1 / v2 sets built against the tip's reference ledger (fresh, with a prefix of already pooled transactions, with a member that is valid against the tip but double-spends a pooled input at a drawn position, with a member carrying an invalid signature at a drawn position), look up ids drawn from pooled v1, pooled v2, confirmed and random ids through BOTH lookup calls, mutate and reorder everything pool queries return, scribble over submitted v2 transactions, mine the pool or a prefix of it, and 'mineconflict': a block confirming a prefix of the pool followed, with no pool query in between, by a set one of whose members double-spends an input of a surviving pool member (must be rejected as a whole, survivors stay), and 'staleforkset': a set built on a block that is then reorganised away, one member spending an output only that block confirmed, submitted with that basis (all or nothing; known only if all were pooled). Oracle: rejected ⇒ pool id set unchanged; accepted ⇒ superset containing every member; known ⇔ every member was pooled before; lookups return exactly the pooled transaction of that kind or absence; no mutation of returned or submitted values is visible in a fresh query. Non-trivial = a pool-conflicting member at position >= 2, or a lookup on a pool holding both kinds; distinct by hash of the case.",
+	Rule: "stateful sequences (1..14 ops) over one manager on a short base chain in three regimes (v1+v2 overlap, v2 only, v1 only): submit v1 / v2 sets built against the tip's reference ledger (fresh, with a prefix of already pooled transactions, with a member that is valid against the tip but double-spends a pooled input at a drawn position, with a member carrying an invalid signature at a drawn position), look up ids drawn from pooled v1, pooled v2, confirmed and random ids through BOTH lookup calls, mutate and reorder everything pool queries return, scribble over submitted v2 transactions, mine the pool or a prefix of it, and 'mineconflict': a block confirming a prefix of the pool followed, with no pool query in between, by a set one of whose members double-spends an input of a surviving pool member (must be rejected as a whole, survivors stay), 'minethenset' (a partly confirming block followed at once by V2TransactionSet for a surviving child of a survivor: exactly its pooled ancestors, creators first), and 'staleforkset': a set built on a block that is then reorganised away, one member spending an output only that block confirmed, submitted with that basis (all or nothing; known only if all were pooled). Oracle: rejected ⇒ pool id set unchanged; accepted ⇒ superset containing every member; known ⇔ every member was pooled before; lookups return exactly the pooled transaction of that kind or absence; no mutation of returned or submitted values is visible in a fresh query. Non-trivial = a pool-conflicting member at position >= 2, or a lookup on a pool holding both kinds; distinct by hash of the case.",
 	Assumptions: []string{
 		"sets respect the documented precondition: an element that is not on chain is created by an earlier member of the same set",
 		"pools stay far below the 10-block weight limit (eviction belongs to C05)",
